@@ -366,7 +366,7 @@ class Graph:
             buffer = graph_state.buffer[name] if _record_settings[name]["output"] else None
             output = jax.tree_util.tree_map(lambda x: x[0], buffer) if buffer is not None else None
 
-            seqs_in = num_seqs[name]
+            seqs_in = max(num_seqs[name], 1)  # At least one row: slots that never run within the horizon still index the record
             step_record = base.StepRecord(
                 eps=onp.array(-1, dtype=int),
                 seq=onp.array(-1, dtype=int),
